@@ -17,7 +17,19 @@ def judge(ctx, cases):
 
 def main(ctx):
     jpfam.design(ctx)
-    cases = jpfam.gen_cases(ctx, nrand=2000 if ctx.quick else 40000, nodesc_last=True, lite=ctx.quick)
+    cases = jpfam.gen_cases(ctx, nrand=1500 if ctx.quick else 40000, nodesc_last=True, lite=ctx.quick)
+    # (b) the representation x fragment x position cell table, enumerated by TLC from JsonPathCells (container shapes for the
+    # tag-menu struct, the Keyed+Indexed ordered map, Keyed Go maps / Indexed Go slices, typed maps and slices)
+    r = ctx.tlc("JsonPathCells", "SPECIFICATION Spec\nCHECK_DEADLOCK FALSE\n", workers=2, heap="2g", timeout=300)
+    cells = r.printed("CELL")
+    if r.error or len(cells) < 1000:
+        raise verif.Infra("JsonPathCells produced %d cells: %s" % (len(cells), r.out[-800:]))
+    if ctx.quick:
+        # quick tier: without the `[0]` prefix (a twin of `.p`) and the `..N` follower; id = ((shape*10 + prefix)*100 + focus)*10 + follower
+        cells = [c for c in cells if (c["id"] // 1000) % 10 != 3 and c["id"] % 10 != 5]
+    with open(cases, "a") as f:
+        for c in cells:
+            f.write(json.dumps(c, separators=(",", ":")) + "\n")
     recs = judge(ctx, cases)
     for r in recs:
         ctx.add(r["api"], r["kind"], r["locus"], r["witness"], case=r["case"], detail=r.get("detail"))
@@ -27,10 +39,12 @@ def main(ctx):
                 c = json.loads(line)
                 ctx.sample({"path": c["path"], "data": jpfam.compact(c["data"])})
     ctx.cov["distinct_nontrivial"] = len(ctx._hits)
-    ctx.cov["rule"] = ("the C05 cases (fragment matrix + seeded random, no path ending in a bare descent); for each case and each "
-                       "representation the harness can build for the tree (simple, gen, typed slices, reflect arrays, typed maps, "
-                       "structs and pointers to structs where the key set is exactly {a}, {a,b} or {a,b,c}, ordered user Keyed/Indexed "
-                       "collections) the harness records Get, First, FirstFound, Has, Locate(0/1/2), Expr.Walk and, on gen data, "
+    ctx.cov["rule"] = ("the C05 cases (fragment matrix + seeded random, no path ending in a bare descent) plus the representation x "
+                       "fragment x position cell table enumerated by TLC (JsonPathCells); for each case and each "
+                       "representation the harness can build for the tree (simple, gen, typed slices, reflect arrays, "
+                       "structs and pointers to structs where the key set is exactly {a}, {a,b} or {a,b,c}, embedded+shadowed structs, the "
+                       "tag-menu struct M (json:\"-\", renamed, omitempty, unexported, embedded), ordered user Keyed/Indexed collections, an "
+                       "ordered map that is Keyed AND Indexed, Go maps / slices that also implement Keyed / Indexed) the harness records Get, First, FirstFound, Has, Locate(0/1/2), Expr.Walk and, on gen data, "
                        "GetNodes/FirstNode; TLC (TraceJsonPath!CheckEvaluators) evaluates Locs once per case and checks every "
                        "recorded output against it. distinct_nontrivial = locus cells counted by the trace specification.")
     ctx.cov["exhaustive"] = False
@@ -38,8 +52,12 @@ def main(ctx):
         "each evaluator is compared with JsonPath!Locs (the C05 oracle); agreement with Get follows",
         "Locate/Walk paths are identified with locations by resolving them against the data (a negative Nth is Normal())",
         "First must be Get[1] only when every step of every result is order-obligated; otherwise any member",
-        "typed maps are not named by the statement: map[string]int64 is exercised for Child/Union only through the same cases; "
-        "deviations on it are reported like the others"]
+        "typed maps (map[string]int64) are not named by the statement and are not exercised",
+        "a collection that implements jp.Keyed and jp.Indexed holds an object whose members are also reachable by rank (JsonPath!Locs2); "
+        "the order in which a wildcard / filter / descent visits it is free",
+        "the members of a Go struct are all its exported fields under their Go names (json:\"-\" included, embedded struct = one member): "
+        "the reflection view every evaluator shares; the statement is silent on tags",
+        "known defect C11-3 (structs) is matched only by an observation EXACTLY equal to the as-implemented selection JsonPath!LocsX computes"]
 
     def confirm(rec):
         again = judge(ctx, [rec["case"]])
